@@ -190,6 +190,15 @@ def rand_expr(rnd, names):
         return {'binary': {'op': rnd.choice(['+', '-', '<', '==', '&&', '||', '*']), 'left': V(rnd.choice(names)), 'right': N(rnd.randint(0, 4))}}
     if x < 0.9:
         return {'unary': {'op': '!', 'expr': V(rnd.choice(names))}}
+    if x < 0.93:
+        # the if special form with one, two or three arguments (a missing branch is null); evaluation leaves the model as it was
+        return {'function': {'name': 'if', 'args': [V(rnd.choice(names))] + [N(rnd.randint(1, 9)) for _ in range(rnd.randint(0, 2))]}}
+    if x < 0.96:
+        # the arguments of a call are evaluated BEFORE the callee is looked up: an argument may log, change a global array or (through a
+        # function that executes a function statement) re-bind the callee; an undefined callee fails after its arguments ran
+        side = rnd.choice([{'function': {'name': 'arrayPush', 'args': [V(rnd.choice(names)), N(7)]}}, {'function': {'name': rnd.choice(['f1', 'f2', 'f3']), 'args': []}},
+                           {'function': {'name': 'systemLog', 'args': [{'string': 'argument evaluated'}]}}])
+        return {'function': {'name': rnd.choice(['f1', 'f2', 'f3', 'noSuchFunction', 'm']), 'args': [side]}}
     # (len / abs / max are expression-only aliases: undefined functions inside a script)
     fname = rnd.choice(['f1', 'f2', 'mathAbs', 'f3', 'len', 'abs', 'max', 'arrayPush', 'arrayLength', 'arrayPush'])
     if fname == 'arrayPush':
@@ -282,6 +291,32 @@ def run_rest_arrays(acc, api):
             acc.count('rest_array_models')
 
 
+def run_call_order(acc, api):
+    """Directed: arguments first, callee second - `ff(gg())` where gg() executes a function statement that re-binds ff calls the NEW ff;
+    a callee that is undefined (or null) fails only after its arguments were evaluated (their log lines and writes are there)."""
+    def call(name, *args):
+        return {'function': {'name': name, 'args': list(args)}}
+    log = lambda e: {'expr': {'expr': call('systemLog', {'binary': {'op': '+', 'left': {'string': 'r='}, 'right': call('jsonStringify', e)}})}}  # noqa: E731
+    ret = lambda v: {'return': {'expr': {'string': v}}}  # noqa: E731
+    rebinder = {'function': {'name': 'gg', 'statements': [{'function': {'name': 'ff', 'args': ['x'], 'statements': [ret('new ff')]}}, ret('gg ran')]}}
+    old = {'function': {'name': 'ff', 'args': ['x'], 'statements': [ret('old ff')]}}
+    models = [
+        {'statements': [old, rebinder, log(call('ff', call('gg'))), log(call('ff', N(1)))]},
+        {'statements': [rebinder, log(call('ff', call('gg')))]},
+        {'statements': [old, rebinder, {'expr': {'name': 'ff2', 'expr': V('ff')}}, log(call('ff2', call('gg'))), log(call('ff', N(0)))]},
+        {'statements': [log({'string': 'start'}), {'expr': {'name': 'arr', 'expr': call('arrayNew')}}, log(call('noSuch', call('arrayPush', V('arr'), N(1)), call('systemLog', {'string': 'second argument'})))]},
+        {'statements': [{'expr': {'name': 'nul', 'expr': V('null')}}, log(call('nul', call('systemLog', {'string': 'argument of a null callee'})))]},
+        {'statements': [old, {'function': {'name': 'hh', 'statements': [{'expr': {'expr': call('systemGlobalSet', {'string': 'ff'}, V('null'))}}, ret('hh ran')]}}, log(call('ff', call('hh')))]},
+        {'statements': [{'jump': {'label': 'L', 'expr': call('if', V('null'))}}, {'jump': {'label': 'L', 'expr': call('if', N(1), N(0))}}, log(call('if', N(1))), log(call('if', N(0), N(5))), {'label': 'L'},
+                        {'function': {'name': 'kk', 'statements': [{'return': {'expr': call('if', V('null'), N(1))}}]}}, log(call('kk')), log(call('kk'))]},
+    ]
+    for plain in models:
+        for rep in range(2):
+            check_model(freeze(plain), plain, {}, 300, acc, api, lambda: {'model': plain, 'init': {}, 'limit': 300})
+        acc.case(('call-order', json.dumps(plain)), True)
+        acc.count('call_order_models')
+
+
 def run_random(spec, acc, api):
     bare_script, lib, rt_err = api
     base = spec['seed'] * 1000003 + spec['shard'] * 7919 + 23
@@ -289,6 +324,7 @@ def run_random(spec, acc, api):
     if spec['shard'] == 0:
         run_truthiness(acc, api)
         run_rest_arrays(acc, api)
+        run_call_order(acc, api)
     for i in range(spec['n']):
         rnd = random.Random(base + i)
         if rnd.random() < 0.8:
